@@ -553,7 +553,8 @@ int main(int argc, char** argv)
          if(getenv("VERIF_TSAN_REPS")) reps = atoi(getenv("VERIF_TSAN_REPS"));
       }
       for(auto& mix : mixes)
-         for(int r = 0; r < reps; ++r)
+         // the file round-trip mix is repeated ten times as often: its threads are inside the readers / writers for a few microseconds only, and an overlap is needed
+         for(int r = 0; r < ((mix.size() == 4 && mix[0] == 10) ? 10 * reps : reps); ++r)
          {
             std::vector<std::string> ref;
             std::atomic<int> go(0);
